@@ -1479,6 +1479,8 @@ def process_cases(rng, n):
         if k == 2:
             c = mutate_raw(rng, c)
             c['tty'] = False
+            if not c['raw']:
+                c['raw'] = ['glom']       # a process always has a program name
         c['proc'] = True
         yield c
 
